@@ -1,6 +1,7 @@
 import NixModel.Lemmas.StoreViews
 import NixModel.Lemmas.C03Accept
 import NixModel.Lemmas.C03Uuid
+import NixModel.Generated.CreateShape
 
 /-!
 # C03 — names unique per parent, ids unique, all lookups agree
@@ -465,6 +466,39 @@ theorem duplicate_refused_property (g : Graph) (p : Path) (o : Loc) (name : Stri
   simp only [hr, hk, bne_self_eq_false, Bool.false_eq_true, ↓reduceIte]
   have hn' : (name != "") = true := by simpa using hn
   simp [hn', hin]
+
+/-! ### the tie to the source: the shape of the create functions (`Generated/CreateShape.lean`,
+regenerated from `block.py`, `section.py`, `source.py`, `file.py` on every run) -/
+
+/-- model kind of a nixio class -/
+def kindOfClass : String → String
+  | "MultiTag" => "multi_tag" | "Tag" => "tag" | "Source" => "source" | "Group" => "group"
+  | "DataArray" => "data_array" | "DataFrame" => "data_frame" | "Section" => "section" | "Block" => "block"
+  | "File" => "file" | _ => ""
+
+/-- every create function of a block, a section and a source raises DuplicateName on the membership
+test of exactly the container it then creates into (names are unique per parent **and kind**) -/
+theorem create_shape_tests_own_container :
+    ∀ r ∈ Gen.createShape, r.1 ≠ "File" → r.2.2.1 = r.2.2.2.1 := by decide
+
+/-- and that container is the model's container for the kind created (`containerInfo`): an owning
+container whose items have the kind of the class handed to `create_new` -/
+theorem create_shape_matches_model :
+    ∀ r ∈ Gen.createShape, r.1 ≠ "File" →
+      (containerInfo (kindOfClass r.1) r.2.2.2.1).map (fun i => (i.item, isPlainLike i.flavour)) =
+        some (kindOfClass r.2.2.2.2, true) := by decide
+
+/-- the functions covered: all six `Block.create_*`, `Section.create_section`, `Source.create_source`;
+`File.create_block` tests and fills `self._data`, `File.create_section` tests `self.sections` (the
+Container over `self._metadata`) and fills `self._metadata` — as `createBlock` / `createSection` -/
+theorem create_shape_functions :
+    Gen.createShape.map (fun r => (r.1, r.2.1)) =
+      [("Block", "create_multi_tag"), ("Block", "create_tag"), ("Block", "create_source"), ("Block", "create_group"),
+       ("Block", "create_data_array"), ("Block", "create_data_frame"), ("Section", "create_section"),
+       ("Source", "create_source"), ("File", "create_block"), ("File", "create_section")] ∧
+    Gen.createShape.filter (fun r => r.1 == "File") =
+      [("File", "create_block", "self._data", "self._data", "Block"),
+       ("File", "create_section", "self.sections", "self._metadata", "Section")] := by decide
 
 /-! Non-vacuity: a concrete reachable state with two blocks, looked up in every way. -/
 def demo : Graph := run init [.createBlock "b" "t", .createBlock "0f0f0f0f0f0f0f0f0f0f0f0f0f0f0f0f" "t"]
